@@ -66,9 +66,9 @@ def gen_input(rng):
     return G.gen_figure_spec(rng, nfig=(1, 3), color_pool=cp, rich=0.4 if colored else 0.0)
 
 
-def check_case(ctx, specs, td):
+def check_case(ctx, specs, td, repeat=None):
     from rtflite.assemble import assemble_rtf
-    case = [strip_meta(s) for s in specs]
+    case = {"specs": [strip_meta(s) for s in specs], "order": repeat}
     paths = []
     docs = []
     for k, spec in enumerate(specs):
@@ -87,6 +87,13 @@ def check_case(ctx, specs, td):
     if any(d.errors for d in docs):
         ctx.count("input_itself_malformed(C01)")
         return
+    # "in any order": the same file may be listed more than once
+    if repeat and len(paths) >= 1:
+        order = repeat
+        paths = [paths[i % len(paths)] for i in order]
+        docs = [docs[i % len(docs)] for i in order]
+        specs = [specs[i % len(specs)] for i in order]
+        ctx.count("assemblies_with_repeated_input")
     out = os.path.join(td, "assembled.rtf")
     geoms = {tuple(sorted(d.setup.items())) for d in docs}
     ctx.case(case, len(specs) >= 2 and (any(len(d.pages) >= 2 for d in docs) or len(geoms) >= 2))
@@ -176,7 +183,12 @@ def run_shard(desc, ctx):
         td = tempfile.mkdtemp(prefix="rtfmon-c17-")
         try:
             k = rng.choice([1, 2, 2, 3, 3, 4, 6])
-            check_case(ctx, [gen_input(rng) for _ in range(k)], td)
+            repeat = None
+            if rng.random() < 0.3:
+                # e.g. [A, B, A]: every input at least once, some again, any order
+                repeat = list(range(k)) + [rng.randrange(k) for _ in range(rng.randint(1, 2))]
+                rng.shuffle(repeat)
+            check_case(ctx, [gen_input(rng) for _ in range(k)], td, repeat)
         finally:
             shutil.rmtree(td, ignore_errors=True)
     td = tempfile.mkdtemp(prefix="rtfmon-c17-")
@@ -190,8 +202,12 @@ def replay(data, ctx):
     td = tempfile.mkdtemp(prefix="rtfmon-c17-")
     try:
         case = data["case"]
-        if isinstance(case, list):
-            check_case(ctx, case, td)
+        if isinstance(case, dict) and "specs" in case:
+            for sp in case["specs"]:
+                if sp.get("kind") == "figure":
+                    for f in sp["figure"]["files"]:
+                        f.setdefault("_fmt", "png")
+            check_case(ctx, case["specs"], td, case.get("order"))
         else:
             degenerate(ctx, random.Random(0), td)
     finally:
